@@ -258,3 +258,97 @@ def expected_cells(series, kind, meta, nan_is_null):
         else:
             out.append(("?", kind))
     return out
+
+
+def _part_key(rel):
+    import re
+    m = re.search(r"part\.(\d+)\.", rel)
+    return int(m.group(1)) if m else -1
+
+
+def writer_model_stream(ctx, report, work, data_blobs, decoded):
+    """`wpage.chunk` correspondence: every page the real writer produced (payload decompressed, header numbers) must be, byte for
+    byte, what the Lean writer model `Impl.writerChunk` lays down for the cells of that page (plain columns: the cells Spec.File decoded
+    from the page - C02 compares those with the frame separately; categorical columns: the frame's codes and categories).
+    The theorem `written_chunk_decodes` (Props/C02) is about that model."""
+    drv = ctx.driver
+    ok = [(ci, rel, b, d) for (ci, rel, b), d in zip(data_blobs, decoded) if "error" not in d]
+    maps = drv.ask([f"wpage pagemap bytes={hexs(b)}" for _, _, b, _ in ok]) if ok else []
+    reqs, exps, recs = [], [], []
+    row_off = {}
+    ok_sorted = sorted(zip(ok, maps), key=lambda t: (t[0][0], _part_key(t[0][1])))
+    for (ci, rel, b, d), rep in ok_sorted:
+        case = work[ci][0]
+        df = case["df"]
+        head, dd = parse_reply(rep)
+        if head != "ok":
+            continue
+        groups = {}
+        for pg in parse_list(dd["pages"]):
+            groups.setdefault((pg[0], pg[1]), []).append(pg)
+        for (ri, col), pages in sorted(groups.items()):
+            cname, m = d["cols"][col], d["meta"][col]
+            cells = d["rgs"][ri][1][col]
+            if m[5] != 0 or m[3] > 1:
+                continue
+            key = (ci, cname)
+            off = row_off.get(key, 0)
+            row_off[key] = off + len(cells)
+            is_dict = any(p[2] == 2 for p in pages)
+            item, cats_txt = 0, "[]"
+            if is_dict:
+                if cname not in df.columns or not isinstance(df[cname].dtype, pd.CategoricalDtype):
+                    report.count("wpage:dictionary-chunk-not-from-a-categorical")
+                    continue
+                kind = cname.split("_", 1)[1] if "_" in cname else ""
+                catkind = {"cat_int": "int64"}.get(kind, "str")
+                cats = expected_cells(pd.Series(df[cname].cat.categories), catkind, m, False)
+                cats_txt = "[" + ",".join(str(x) for x in cats) + "]"
+                codes = df[cname].cat.codes.values[off:off + len(cells)]
+                item = df[cname].cat.codes.dtype.itemsize
+                cells = ["n" if int(k) < 0 else int(k) for k in codes]
+            actual, page_cells, pos, bad = [], [], 0, None
+            for (_ri, _ci, tag, nv, enc, nn, nr, dlen, doff, csz, usz, codec, iscomp) in pages:
+                try:
+                    if codec == 0:
+                        body = b[doff:doff + csz]
+                    elif tag == 3:
+                        body = b[doff:doff + dlen] + (decompress(codec, b[doff + dlen:doff + csz], usz - dlen) if iscomp else b[doff + dlen:doff + csz])
+                    else:
+                        body = decompress(codec, b[doff:doff + csz], usz)
+                except Exception as e:  # noqa
+                    bad = f"{type(e).__name__}"
+                    break
+                actual.append([tag, nv, enc, nn, nr, dlen, hexs(body)])
+                if tag != 2:
+                    page_cells.append(cells[pos:pos + nv])
+                    pos += nv
+            if bad:
+                report.count("wpage:payload-does-not-decompress")
+                continue
+            v2 = int(any(p[2] == 3 for p in pages))
+            reqs.append(f"wpage chunk ptype={m[0]} tl={m[4]} nulls={int(m[3] >= 1)} v2={v2} item={item} cats={cats_txt} pages=["
+                        + ",".join("[" + ",".join(str(x) for x in pc) + "]" for pc in page_cells) + "]")
+            exps.append(actual)
+            recs.append({"check": "writer-model", **case["desc"], "file": rel, "row_group": ri, "column": cname})
+    reps = drv.ask(reqs) if reqs else []
+    for req, exp, rec, rep in zip(reqs, exps, recs, reps):
+        report.stream("wpage.chunk")
+        report.count("wpage:pages", len(exp))
+        head, dd = parse_reply(rep)
+        if head != "ok":
+            report.corr_break("wpage.chunk", {**rec, "what": "the writer model rejects the request: " + rep[:200], "sig": "wpage:" + rep[:30]})
+            continue
+        got = parse_list(dd["pages"])
+        if dd.get("back") != "same":
+            report.corr_break("wpage.chunk", {**rec, "what": "Spec.File does not decode the MODEL's own pages back to the cells (" + str(dd.get("back"))[:120]
+                                              + "): the input is outside the theorem's hypotheses", "sig": "wpage:back"})
+        if got != exp:
+            what = f"{len(exp)} pages written, the model lays down {len(got)}"
+            for i, (g, e) in enumerate(zip(got, exp)):
+                if g != e:
+                    names = ["page type", "num_values", "encoding", "num_nulls", "num_rows", "definition_levels_byte_length", "payload"]
+                    k = next(j for j in range(7) if g[j] != e[j])
+                    what = (f"page {i}: {names[k]} written {str(e[k])[:80]} but the model of write_column lays down {str(g[k])[:80]}")
+                    break
+            report.corr_break("wpage.chunk", {**rec, "what": what, "request": req[:600], "sig": "wpage:" + what.split(":")[1][:25] if ":" in what else "wpage:count"})
